@@ -92,8 +92,11 @@ class ProcessWorker(Worker):
         else:
             try:
                 self._ctrl_comms.parent_end.put('terminate')
-                self._ctrl_comms.parent_end.get()
-            except (BrokenPipeError, queue.Empty):
+                # the child's control thread answers by closing its end - but a child which cannot run it
+                # (interpreter lock held by C code, process stopped) never will: do not wait longer than asked
+                if self._ctrl_comms.parent_end.poll(timeout):
+                    self._ctrl_comms.parent_end.get()
+            except (BrokenPipeError, queue.Empty, OSError):
                 pass
 
             self._release_child()
@@ -102,6 +105,10 @@ class ProcessWorker(Worker):
                 if force:
                     self._child.terminate()
                     self._child.join(timeout)
+                    if self._child.is_alive():
+                        # SIGTERM stays pending for a stopped process - SIGKILL cannot be ignored
+                        self._child.kill()
+                        self._child.join(timeout)
                     # try:
                     #     self._comms.child_end.put((False, None))
                     #     self._comms.child_end.close()
